@@ -13,7 +13,9 @@ open Snel Snel.Proto Snel.Sequence
 * zones: `<nzones>` then per zone `<ncols>` then per column `<name> I|S <len> <cell>*`
   (I cells: `n` or decimal, S cells: hex).
 
-Answer: `ok <n> z.r>z.r …` in emission order (first>second row of `matched_rows`),
+Answer: `ok <n> z.r>z.r …` in emission order (first>second row of `matched_rows`); for the op
+`matchset` the pair tokens sorted as strings (end-to-end answers: the order of link groups in the
+response is not part of the property), for `matchcount` the count only (LIMIT cut the answer),
 `skip` for the line `skip` (end-to-end cases whose answer is not determined),
 `bad-order` if the given keys are not a permutation of the model's keys, `bad-op` otherwise. -/
 
@@ -107,6 +109,7 @@ def keyString (k : Key) : List Nat :=
 
 structure Case where
   pre : Bool
+  out : Nat   -- 0: pairs in emission order, 1: pairs as a sorted list (set), 2: count only
   cfg : Cfg
   limit : Option Nat
   order : List Str
@@ -115,9 +118,11 @@ structure Case where
 
 def pCase : P Case := do
   let kind ← tok
-  let pre ← match kind with
-    | "match" => pure false
-    | "prefilter" => pure true
+  let (pre, out) ← match kind with
+    | "match" => pure (false, 0)
+    | "prefilter" => pure (true, 0)
+    | "matchset" => pure (false, 1)
+    | "matchcount" => pure (false, 2)
     | _ => failure
   let link ← tok
   let preceded ← match link with
@@ -139,7 +144,7 @@ def pCase : P Case := do
   let as ← pZones
   let bs ← pZones
   if !(← get).isEmpty then failure
-  pure { pre, cfg := { preceded, timeField := tf, linkField := lf, tyA, tyB, wh }, limit, order, as, bs }
+  pure { pre, out, cfg := { preceded, timeField := tf, linkField := lf, tyA, tyB, wh }, limit, order, as, bs }
 
 def showPair (p : Pair) : String := s!"{p.1.zone}.{p.1.idx}>{p.2.zone}.{p.2.idx}"
 
@@ -156,6 +161,11 @@ def answer (line : String) : String :=
     if order.length ≠ c.order.length || order.length ≠ keys.length || !(keys.all order.contains) then "bad-order"
     else
       let res := matchSequences c.cfg c.limit as bs order
-      " ".intercalate ("ok" :: toString res.length :: res.map showPair)
+      let toks := res.map showPair
+      let toks := match c.out with
+        | 0 => toks
+        | 1 => (toks.toArray.qsort (· < ·)).toList
+        | _ => []
+      " ".intercalate ("ok" :: toString res.length :: toks)
 
 def main : IO Unit := serve answer
